@@ -413,7 +413,10 @@ class _DefaultTimes(Underlying):
         self, times, path: np.array, jump_path: np.array, payoff_underlying=None
     ) -> np.array:
         log_jump_path = np.log(jump_path)
-        return self._value_log(times, path, log_jump_path, payoff_underlying)
+        # not self._value_log: a subclass reducing the default times must not be applied twice
+        return _DefaultTimes._value_log(
+            self, times, path, log_jump_path, payoff_underlying
+        )
 
     def _value_log(
         self, times, path: np.array, jump_path: np.array, payoff_underlying=None
